@@ -24,3 +24,4 @@ pub mod sweeps;
 pub mod txc;
 pub mod cut;
 pub mod txn;
+pub mod cutm;
